@@ -112,9 +112,11 @@ func dumpDiff(a, b map[int]map[string]string) string {
 // deadlinesClose reports whether two dumps differ only by <= 1 ms in deadlines.
 func dumpsEqual(a, b map[int]map[string]string) bool { return dumpDiff(a, b) == "" }
 
+var c19Keys = []string{"a", "b", "c", "bin\x00\xff\r\n", "long" + strings.Repeat("k", 300), "e1", "e2"}
+
 func c19RandomHistory(rng *rand.Rand, n int) [][]string {
 	var out [][]string
-	keys := []string{"a", "b", "c", "bin\x00\xff\r\n", "long" + strings.Repeat("k", 300), "e1", "e2"}
+	keys := c19Keys
 	for i := 0; i < n; i++ {
 		k := pick(rng, keys)
 		switch rng.Intn(22) {
@@ -253,49 +255,91 @@ func c19RoundTrip(r *verdict.Run, shard int) {
 		r.Inconclusive("infra: " + err.Error())
 		return
 	}
-	hist := c19RandomHistory(rng, 40+rng.Intn(60))
-	for i, cmd := range hist {
-		if _, err := cn.Do(cmd...); err != nil {
-			r.Inconclusive("history command failed: " + err.Error())
+	// several generations on one persist path: each later history runs on top of the snapshots its predecessors left
+	// on disk (a database emptied or flushed in generation n must not come back from the files of generation n-1)
+	var hist [][]string
+	var before map[int]map[string]string
+	var files string
+	gens := 1 + shard%3
+	for gen := 0; gen < gens; gen++ {
+		h := c19RandomHistory(rng, 40+rng.Intn(60))
+		if gen > 0 {
+			h = append(h[:len(h)/2], c19Emptying(rng)...)
+			hist = append(hist, []string{fmt.Sprintf("-- restart, generation %d --", gen+1)})
+		}
+		hist = append(hist, h...)
+		for i, cmd := range h {
+			if _, err := cn.Do(cmd...); err != nil {
+				r.Inconclusive("history command failed: " + err.Error())
+				c.Stop()
+				return
+			}
+			if i == len(h)/2 && rng.Intn(2) == 0 {
+				waitSaved(c) // some histories span a periodic save
+			}
+		}
+		before, err = fullDump(cn)
+		if err != nil {
 			c.Stop()
 			return
 		}
-		if i == len(hist)/2 && rng.Intn(2) == 0 {
-			waitSaved(c) // some histories span a periodic save
+		cn.Close()
+		if _, err := c.CloseEmu(e.name, 15*time.Second); err != nil {
+			r.Report("persist/close-failed", "Close() did not return: "+err.Error(), nil)
+			c.Stop()
+			return
+		}
+		files = p.files()
+		c.Stop()
+		c, e, cn, err = p.start()
+		if err != nil {
+			r.Report("persist/restart-failed/"+errClass(err), fmt.Sprintf("the emulator could not be restarted on its own snapshot (%s): %v", files, err), map[string]any{"history": quoteCmds(hist)})
+			return
+		}
+		after, err := fullDump(cn)
+		r.Eval(1)
+		if err != nil {
+			c.Stop()
+			return
+		}
+		if d := dumpDiff(before, after); d != "" {
+			r.Report("persist/round-trip/"+diffClass(d), fmt.Sprintf("generation %d: state after restart differs from the acknowledged state before shutdown (%s):\n%s", gen+1, files, d), map[string]any{"history": quoteCmds(hist)})
+			break
 		}
 	}
-	before, err := fullDump(cn)
-	if err != nil {
-		c.Stop()
-		return
-	}
-	cn.Close()
-	if _, err := c.CloseEmu(e.name, 15*time.Second); err != nil {
-		r.Report("persist/close-failed", "Close() did not return: "+err.Error(), nil)
-		c.Stop()
-		return
-	}
-	files := p.files()
 	c.Stop()
-	c2, _, cn2, err := p.start()
-	if err != nil {
-		r.Report("persist/restart-failed/"+errClass(err), fmt.Sprintf("the emulator could not be restarted on its own snapshot (%s): %v", files, err), map[string]any{"history": quoteCmds(hist)})
-		return
-	}
-	defer c2.Stop()
-	after, err := fullDump(cn2)
-	r.Eval(1)
-	if err != nil {
-		return
-	}
-	if d := dumpDiff(before, after); d != "" {
-		r.Report("persist/round-trip/"+diffClass(d), fmt.Sprintf("state after restart differs from the acknowledged state before shutdown (%s):\n%s", files, d), map[string]any{"history": quoteCmds(hist)})
-	}
 	ndb := len(before)
-	r.Distinct(fmt.Sprintf("round-trip/dbs%d/keys%d", ndb, countKeys(before)))
+	r.Distinct(fmt.Sprintf("round-trip/gens%d/dbs%d/keys%d", gens, ndb, countKeys(before)))
 	if shard < 2 {
 		r.Sample(map[string]any{"history_prefix": quoteCmds(hist[:min(10, len(hist))]), "databases": ndb, "keys": countKeys(before), "files": files})
 	}
+}
+
+// c19Emptying: history tails that empty or flush databases in the ways that interact with the per-database
+// "changed" flag: key-by-key deletion followed by a flush, flushes of already empty databases, flush then re-create.
+func c19Emptying(rng *rand.Rand) [][]string {
+	delAll := func() [][]string {
+		var out [][]string
+		for _, k := range c19Keys {
+			out = append(out, []string{"DEL", k})
+		}
+		return append(out, []string{"DEL", "counter"})
+	}
+	switch rng.Intn(7) {
+	case 0:
+		return append(delAll(), []string{"FLUSHDB"})
+	case 1:
+		return append(delAll(), []string{"FLUSHALL"})
+	case 2:
+		return append(append([][]string{{"MULTI"}}, delAll()...), []string{"FLUSHDB"}, []string{"EXEC"})
+	case 3:
+		return [][]string{{"FLUSHDB"}, {"FLUSHDB"}, {"SELECT", "1"}, {"FLUSHALL"}, {"SELECT", "0"}}
+	case 4:
+		return [][]string{{"FLUSHALL"}, {"SET", "a", "again"}, {"DEL", "a"}}
+	case 5:
+		return append(delAll(), []string{"SELECT", "1"}, []string{"FLUSHDB"}, []string{"SELECT", "0"}, []string{"FLUSHDB"})
+	}
+	return nil
 }
 
 func errClass(err error) string {
